@@ -98,6 +98,14 @@ static void one(int v)
     FILL(&t->locals, g, sp);
     ITER_SUCC(&the_es, t, PARSEC_ACTION_DEPS_MASK | PARSEC_ACTION_RELEASE_LOCAL_DEPS, rec, NULL);
 
+    /* Known finding C01-descending-range: activations whose destination class (KF_NEG_DC) has a
+     * descending parameter range are dropped by the generated bounds check.  EXCLUDE: candidates
+     * towards that class are not checked for completeness; ONLY: only those candidates are. */
+#if defined(KF_NEG_DC) && defined(KF_EXCLUDE_C01_DESCENDING_RANGE)
+    if (c_dc == KF_NEG_DC) return;
+#elif defined(KF_NEG_DC) && defined(KF_ONLY_C01_DESCENDING_RANGE)
+    if (c_dc != KF_NEG_DC) return;
+#endif
     int want = (c_sf < ref_nflow[CID] && c_df < ref_nflow[c_dc]) ? ref_edge(g, CID, sp, c_sf, c_dc, c_dp, c_df) : 0;
     VASSERTM(n_match == (want ? 1 : 0), "a reference out-edge is activated exactly once, a non-edge never");
     if (want) n_edges_seen++;
